@@ -206,6 +206,12 @@ VARIANTS = [
      ('g2', 'q1', S.RUNNING, 'epipe', 1, 1), ('solo', 'solo', S.RUNNING, 'stopfails', 1, 1)],
     [('g1', 'p1', S.STOPPED, 'notexec', 2, 1), ('g1', 'p2', S.FATAL, 'badcommand', 2, 1),
      ('g2', 'q1', S.STOPPED, 'clearfails', 1, 1), ('solo', 'solo', S.STOPPED, None, 3, 1)],
+    # non-ASCII group/process names: they travel in result structs and fault
+    # strings, on the immediate and on the deferred path
+    [(u'gr\u00fc', u'pr\u00f6', S.STOPPED, None, 2, 1), (u'gr\u00fc', u'di\u00e9', S.STOPPED, 'diesstarting', 1, 1),
+     ('g2', 'q1', S.FATAL, None, 1, 1), ('solo', 'solo', S.EXITED, None, 0, 0)],
+    [(u'gr\u00fc', u'pr\u00f6', S.RUNNING, None, 2, 2), (u'gr\u00fc', u'di\u00e9', S.RUNNING, None, 1, 1),
+     ('g2', 'q1', S.STOPPED, 'spawnerr', 1, 1), ('solo', 'solo', S.RUNNING, None, 1, 2)],
 ]
 
 
@@ -226,12 +232,13 @@ class World(object):
         prio = {'g1': 1, 'g2': 2, 'solo': 3}
         for k, (g, p, state, quirk, sd, kd) in enumerate(VARIANTS[variant % len(VARIANTS)]):
             logs = {'p1': ('p1.out', 'p1.err'), 'p2': ('bad.out', None), 'q1': (None, 'absent.err'),
-                    'solo': ('solo.out', 'p1.err')}[p]
+                    'solo': ('solo.out', 'p1.err'), u'pr\u00f6': ('p1.out', 'p1.err'),
+                    u'di\u00e9': ('solo.out', None)}[p]
             pc = DummyPConfig(opts, p, '/bin/%s -x' % p, priority=10 + k,
                               stdout_logfile=logs[0] and os.path.join(logdir, logs[0]),
                               stderr_logfile=logs[1] and os.path.join(logdir, logs[1]))
             if g not in gconfigs:
-                gconfigs[g] = DummyPGroupConfig(opts, g, priority=prio[g], pconfigs=[])
+                gconfigs[g] = DummyPGroupConfig(opts, g, priority=prio.get(g, 1), pconfigs=[])
                 groups[g] = DummyProcessGroup(gconfigs[g])
                 groups[g].processes = {}
             gconfigs[g].process_configs.append(pc)
@@ -240,7 +247,7 @@ class World(object):
         # the config file also lists a group that is not active, and lacks 'solo'
         extra = DummyPGroupConfig(opts, 'newgrp', priority=5,
                                   pconfigs=[DummyPConfig(opts, 'n1', '/bin/n1', priority=1)])
-        opts.process_group_configs = [gconfigs['g1'], gconfigs['g2'], extra]
+        opts.process_group_configs = [gconfigs[g] for g in gconfigs if g != 'solo'] + [extra]
         if variant % 2 == 1:
             opts.reread_error = 'bad config'
         # the real interface objects, built as supervisor.http.make_http_servers does
@@ -345,7 +352,7 @@ def subscribe_events(world_ref):
 
 def write_logs(logdir):
     files = {
-        'main.log': b'2026-01-01 INFO supervisord started\nline two\n',
+        'main.log': u'2026-01-01 INFO supervisord started\nline two: caf\u00e9 \u20ac5 \u65e5\u672c\n'.encode('utf-8'),
         'p1.out': b'hello from p1\n\xc3\xa9\xe2\x82\xac end\n',      # multi-byte UTF-8: windows can cut a character
         'p1.err': b'err line\n',
         'bad.out': b'ok\xff\xfe binary \x80 tail',                   # never valid UTF-8 as a whole
